@@ -18,11 +18,11 @@ MAL = ("dupkey", "unkkey", "indef", "trailing", "bignum")
 
 # capture groups run as separate driver processes: (tag, groups, shards in the quick tier, shards in the thorough tier);
 # a shard captures the whole group and runs the campaign on every n-th type
-JOBS = [("access-sharing", "access,sharing", 1, 3),
+JOBS = [("zkp2", "zkp2", 2, 6), ("zkp", "zkp", 1, 3), ("shards", "shards", 1, 3), ("proto", "proto", 2, 4),
+        ("access-sharing", "access,sharing", 1, 3),
         ("curves-num", "curves,num,znstar,mat", 1, 1),
         ("sig", "sig", 1, 1), ("enc", "enc", 1, 2), ("commit", "commit", 1, 2),
-        ("sigma", "sigma", 1, 1), ("zkp", "zkp", 2, 5),
-        ("proto", "proto", 2, 4), ("shards", "shards", 1, 2)]
+        ("sigma", "sigma", 1, 1)]
 
 
 def key_of(row):
